@@ -16,6 +16,11 @@ structure Inv where
   rm : Bool := false
   toStdout : Bool := false
   outName : Option String := none
+  /-- display level: 0 = -qq, 1 = -q, 2 = default, 3 = -v.  It decides whether a question is asked at all (fileio.c:
+  FIO_multiFilesConcatWarning, FIO_openDstFile); it must never decide anything else about the files -/
+  level : Nat := 1
+  /-- the answer read from stdin when a confirmation is asked for ("y" = true; "n", anything else, end of file = false) -/
+  confirm : Bool := false
 deriving Repr
 
 /-- what the run meets: which paths exist beforehand, and the codec's verdict per source (corrupted / truncated input, …) -/
@@ -47,8 +52,20 @@ def dstOf (inv : Inv) (src : String) : Option String :=
     | .decompress => stripSuffix src
     | .test => none
 
-/-- source removal is honoured only when the output can stand for the source -/
-def rmActive (inv : Inv) : Bool := inv.rm && !inv.toStdout && inv.mode != .test
+/-- several inputs concatenated into the one destination named with -o (FIO_compressMultipleFilenames / FIO_decompressMultipleFilenames,
+`outFileName != NULL` with `nbFilesTotal > 1`): the destination is opened once, before the first source, and closed once, after the last -/
+def sharedOut (inv : Inv) : Option String :=
+  match inv.outName with
+  | some o => if inv.files.length > 1 && inv.mode != .test && !inv.toStdout then some o else none
+  | none => none
+
+/-- may an existing file be replaced / may a question be answered yes: -f, or the user said "y" at the prompt, which is only shown at
+display level >= 2 (at -q / -qq the tool refuses without asking) -/
+def overwriteOk (inv : Inv) : Bool := inv.force || (decide (2 ≤ inv.level) && inv.confirm)
+
+/-- source removal is honoured only when the output can stand for the source: never with stdout, in test mode, or when several inputs
+share one destination - whatever the display level -/
+def rmActive (inv : Inv) : Bool := inv.rm && !inv.toStdout && inv.mode != .test && (sharedOut inv).isNone
 
 /-- operations for one source file, and whether it counts as a success -/
 def fileOps (inv : Inv) (env : Env) (src : String) : List Op × Bool :=
@@ -57,7 +74,7 @@ def fileOps (inv : Inv) (env : Env) (src : String) : List Op × Bool :=
   else match dstOf inv src with
     | none => ([], false)
     | some dst =>
-      if env.dstExists dst && !inv.force then ([.openR src, .close src false], false)
+      if env.dstExists dst && !overwriteOk inv then ([.openR src, .close src false], false)
       else
         let pre := if env.dstExists dst then [Op.unlink dst] else []
         if env.codecOk src then
@@ -72,10 +89,30 @@ def allOps (inv : Inv) (env : Env) : List String → List Op × Bool
     let (o2, ok2) := allOps inv env fs
     (o1 ++ o2, ok1 && ok2)
 
-/-- the whole run; several inputs into one named output together with --rm is refused before anything is touched -/
-def program (inv : Inv) (env : Env) : List Op :=
-  if inv.outName.isSome && inv.files.length > 1 && inv.rm then [.exit 1]
+/-- the sources of a shared-destination run: each is opened, read and closed; none is ever removed -/
+def srcOps (env : Env) : List String → List Op × Bool
+  | [] => ([], true)
+  | f :: fs =>
+    let (o2, ok2) := srcOps env fs
+    if env.srcExists f then ([.openR f, .close f false] ++ o2, env.codecOk f && ok2) else (o2, false)
+
+/-- several inputs into one destination `out`: refused before anything is touched unless -f / a "y" at the prompt
+(FIO_multiFilesConcatWarning; the same condition lets FIO_openDstFile replace an existing `out`); no SIGINT handler is installed for a
+destination opened this way; --rm is switched off -/
+def sharedOps (inv : Inv) (env : Env) (out : String) : List Op × Bool :=
+  if !overwriteOk inv then ([], false)
   else
+    let pre := if env.dstExists out then [Op.unlink out] else []
+    let (os, ok) := srcOps env inv.files
+    (pre ++ [.openW out] ++ os ++ [.close out ok], ok)
+
+/-- the whole run -/
+def program (inv : Inv) (env : Env) : List Op :=
+  match sharedOut inv with
+  | some out =>
+    let (ops, ok) := sharedOps inv env out
+    ops ++ [.exit (if ok then 0 else 1)]
+  | none =>
     let (ops, ok) := allOps inv env inv.files
     ops ++ [.exit (if ok then 0 else 1)]
 
